@@ -6,7 +6,7 @@
 From Coq Require Import Reals Lra List ZArith Lia Bool Permutation Arith.
 Import ListNotations.
 From PD Require Import Model.Num Model.Spectrum Gen.Gen_spectrum
-  Proofs.SpectrumLists Proofs.SpectrumSF Proofs.SpectrumSmooth Proofs.C16.
+  Proofs.SpectrumLists Proofs.SpectrumSF Proofs.SpectrumSmooth Proofs.SpectrumPeak Proofs.SpectrumDFT4 Proofs.C16.
 Local Open Scope R_scope.
 
 (* ================================================================== helpers *)
@@ -199,6 +199,90 @@ Proof.
   assert (E3 : s * s = 1) by nra. apply Hne. nra.
 Qed.
 
+(* ================================================================== plane waves and the peak method *)
+(* The peak search starts at max_est = k_mag[o + argmax(sf[o:])] of the arrays returned with add_zero, i.e. at the
+   argmax over the (k, sf) pairs of the unsmoothed structure factor, and smooths the arrays (0 :: k, 1 :: sf). *)
+Lemma ls_peak_model_start mini F shape h x sigma :
+  ls_peak_model mini F shape h x sigma =
+  match argmax_pair (sf_pairs F shape h x) with
+  | None => None
+  | Some est => peak_loop mini (nw_smooth sigma (0 :: k_list shape h) (1 :: sf_list F shape x)) (fst est) ls_peak_windows
+  end.
+Proof.
+  unfold ls_peak_model, ls_peak_flags, gsf_model. rewrite add_zero_prepends, unsmoothed_returns_raw.
+  reflexivity.
+Qed.
+
+Lemma ls_peak_windows_bounded : Forall (fun w => / 5 <= w <= 5) ls_peak_windows.
+Proof. unfold ls_peak_windows. repeat constructor; lra. Qed.
+
+(* whatever the minimiser does inside its bracket, the reported wave number is within the widest bracket *)
+Lemma peak_loop_in_bracket mini f e ws : minimizer_in_bracket mini -> 0 < e ->
+  Forall (fun w => / 5 <= w <= 5) ws ->
+  forall L, peak_loop mini f e ws = Some L -> exists xk, L = ls_peak xk /\ e / 5 <= xk <= 5 * e.
+Proof.
+  intros Hm He Hws. induction Hws as [|w ws [Hw1 Hw2] _ IH]; intros L HL; [discriminate|].
+  cbn [peak_loop] in HL. destruct (mini (fun x => - f x) (ls_peak_bracket e w)) as [r|] eqn:E; [|apply IH; exact HL].
+  injection HL as <-. exists r. split; [reflexivity|].
+  unfold ls_peak_bracket in E. apply Hm in E.
+  assert (Hw0 : 0 < w) by lra.
+  assert (Hi1 : / w <= 5) by (rewrite <- (Rinv_inv 5); apply Rinv_le_contravar; lra).
+  assert (Hi2 : / 5 <= / w) by (apply Rinv_le_contravar; lra).
+  assert (Hi0 : 0 < / w) by (apply Rinv_0_lt_compat; exact Hw0).
+  unfold Rdiv in *. revert E. unfold Rmin, Rmax. destruct (Rle_dec (e * / w) (e * w)); intros [E1 E2]; split; nra.
+Qed.
+
+Section PlaneWavePeak.
+  Variable mini : minimizer.
+  Variable dom : list nat -> Prop.
+  Variable F : dft_oracle.
+  Hypothesis Hmini : minimizer_in_bracket mini.
+  Hypothesis HF : dft_spec dom F.
+  Hypothesis HC : dft_cosine dom F.
+
+  (* For x_m = A cos(2 pi q m / N + phi) + c with 1 <= q, 4 q <= N, A <> 0 on N cells of ANY spacing h > 0:
+     (1) the starting estimate of the peak search is the true wave number 2 pi q / (N h) exactly -- a theorem, and the
+         reason why the method can be covariant at all;
+     (2) if a value is returned it is 2 pi / xk with xk in [k_true / 5, 5 k_true] (the widest generated bracket), relative
+         to the premise that the scalar minimiser stays inside its bracket; None is the implementation's nan.
+     NOT carried by a theorem: that the minimiser does not raise (the bracket must satisfy f(b) < f(a), f(c) for the
+     smoothed curve including the prepended pair (0, 1)) and that the local maximum of the smoothed curve it converges
+     to stays within half a Fourier bin 2 pi / (N h) / 2 of k_true.  Both depend on the smoothing width in units of the
+     bin and, for the default width, on exp underflow (DESIGN 5.17); they are the per-sample check of props/C17.py
+     (finite and within half a bin for unit-consistent widths whenever the bracket of the smoothed model curve is valid;
+     default width: known finding F7). *)
+  Lemma plane_wave_peak_bin N q A phi c h sigma :
+    dom [N] -> (1 <= q)%nat -> (4 * q <= N)%nat -> A <> 0 -> 0 < h ->
+    (exists p, argmax_pair (sf_pairs F [N] [h] (cosine_field N q A phi c)) = Some p /\
+               fst p = 2 * PI * INR q / (INR N * h)) /\
+    (forall L, ls_peak_model mini F [N] [h] (cosine_field N q A phi c) sigma = Some L ->
+       exists xk, L = ls_peak xk /\
+                  2 * PI * INR q / (INR N * h) / 5 <= xk <= 5 * (2 * PI * INR q / (INR N * h))).
+  Proof.
+    intros Hd Hq1 Hq4 HA Hh.
+    destruct (plane_wave_max_est dom F HF HC N q A phi c Hd Hq1 Hq4 HA h Hh) as [p [Ep Ek]].
+    split; [exists p; split; assumption|].
+    intros L HL. rewrite ls_peak_model_start, Ep, Ek in HL.
+    apply (peak_loop_in_bracket mini _ _ ls_peak_windows Hmini) in HL; [exact HL| |apply ls_peak_windows_bounded].
+    assert (0 < INR q) by (apply lt_0_INR; lia). assert (0 < INR N) by (apply lt_0_INR; lia).
+    pose proof PI_RGT_0. apply Rdiv_lt_0_compat; [nra|]. apply Rmult_lt_0_compat; assumption.
+  Qed.
+
+  (* the starting estimate is covariant: stretching the grid by s divides it by s *)
+  Lemma plane_wave_start_covariant N q A phi c h s :
+    dom [N] -> (1 <= q)%nat -> (4 * q <= N)%nat -> A <> 0 -> 0 < h -> 0 < s ->
+    exists p p', argmax_pair (sf_pairs F [N] [h] (cosine_field N q A phi c)) = Some p /\
+                 argmax_pair (sf_pairs F [N] [s * h] (cosine_field N q A phi c)) = Some p' /\
+                 fst p' = fst p / s.
+  Proof.
+    intros Hd Hq1 Hq4 HA Hh Hs.
+    destruct (plane_wave_max_est dom F HF HC N q A phi c Hd Hq1 Hq4 HA h Hh) as [p [Ep Ek]].
+    destruct (plane_wave_max_est dom F HF HC N q A phi c Hd Hq1 Hq4 HA (s * h) ltac:(nra)) as [p' [Ep' Ek']].
+    exists p, p'. repeat split; try assumption. rewrite Ek, Ek'.
+    assert (INR N <> 0) by (apply not_0_INR; lia). field. repeat split; lra.
+  Qed.
+End PlaneWavePeak.
+
 (* both spectral length scales are 2 pi over a wave number (the docstring's convention) *)
 Lemma ls_is_inverse_wave_number :
   (forall x, x <> 0 -> ls_peak x * x = 2 * PI) /\
@@ -295,6 +379,24 @@ Lemma c17_nonvacuous :
 Proof.
   split; [apply mini_mid_covariant|]. split; [discriminate|]. split; [repeat constructor; simpl; lra|].
   split; [lia|]. split; lra.
+Qed.
+
+(* a minimiser that is both scale covariant and stays in its bracket: return the first bracket point *)
+Definition mini_lo : minimizer := fun _ t => Some (fst (fst t)).
+
+Lemma mini_lo_spec : minimizer_covariant mini_lo /\ minimizer_in_bracket mini_lo.
+Proof.
+  split.
+  - intros f g a b c s Hs Hg. reflexivity.
+  - intros f a b c x E. injection E as <-. cbn [fst]. split; [apply Rmin_l|apply Rmax_l].
+Qed.
+
+Lemma c17_plane_wave_nonvacuous :
+  minimizer_in_bracket mini_lo /\ dft_spec dom4 dft4 /\ dft_cosine dom4 dft4 /\ dom4 [4%nat] /\
+  (1 <= 1)%nat /\ (4 * 1 <= 4)%nat /\ 1 <> 0 /\ 0 < / 2.
+Proof.
+  split; [apply mini_lo_spec|]. split; [apply dft4_spec|]. split; [apply dft4_cosine|].
+  split; [reflexivity|]. split; [lia|]. split; [lia|]. split; lra.
 Qed.
 
 Lemma ls_peak_default_refuted :
